@@ -7,8 +7,11 @@ import (
 	"fmt"
 	"net/http"
 	"net/url"
+	"os"
 	"strconv"
 	"strings"
+	"sync"
+	"sync/atomic"
 	"time"
 
 	ct "github.com/google/certificate-transparency-go"
@@ -16,6 +19,7 @@ import (
 	"github.com/google/certificate-transparency-go/jsonclient"
 
 	"verif/sim/kernel"
+	"verif/sim/lockrt"
 	"verif/sim/oracle"
 )
 
@@ -120,6 +124,8 @@ type submitter struct {
 	cancel     context.CancelFunc
 	deadlineT  time.Duration // fake time of the deadline; <0 none
 	cancelT    time.Duration // fake time of the cancel event; <0 not cancelled
+	heldAt     time.Duration // lockstep spec: the last fake instant at which the driver held this submitter at a lock or statement boundary
+	ended      atomic.Bool   // the driver cancelled the context (read by the lockstep runtime on the submitter's goroutines)
 	started    bool
 	startT     time.Duration
 
@@ -158,6 +164,9 @@ type c13World struct {
 	cancel context.CancelFunc
 	subs   []*submitter
 	byName map[string]*submitter
+	nameMu sync.Mutex
+	lock   bool
+	ls     *kernel.Lockstep // spec C13lock only
 	sctTS  uint64
 	wake   chan struct{} // signalled (never blocking) whenever an attempt reaches the transport
 
@@ -179,9 +188,64 @@ type c13World struct {
 
 func newC13() kernel.World { return &c13World{} }
 
+// newC13Lock: spec C13lock - the same world on the lockstep build (DESIGN §16.1): every mutex operation and
+// statement boundary of jsonclient and client is a seam, so submitters sharing one client are interleaved between
+// any two statements of the retry loop and the back-off bookkeeping.
+func newC13Lock() kernel.World { return &c13World{lock: true} }
+
+func c13LockSpecs(specs []kernel.Spec) []kernel.Spec {
+	if !lockrt.Enabled {
+		return specs
+	}
+	return append(specs, kernel.Spec{Prop: "C13lock", Mk: newC13Lock, Limits: kernel.Limits{MaxSteps: 600, SettleSteps: 300}})
+}
+
+func (w *c13World) lockInit() {
+	if !w.lock || w.s.Timed {
+		lockrt.Install(nil)
+		return
+	}
+	w.ls = kernel.NewLockstep(w.s, true)
+	// a submitter whose context has ended (cancelled by the driver, or past its deadline by the fake clock) is no
+	// longer scheduled by the driver
+	w.ls.Ended = func(root string) bool {
+		w.nameMu.Lock()
+		sb := w.byName[root]
+		w.nameMu.Unlock()
+		if sb == nil {
+			return false
+		}
+		return sb.ended.Load() || (sb.deadlineT >= 0 && w.s.Now() >= sb.deadlineT)
+	}
+	lockrt.Install(w.ls.RT)
+}
+
+// heldSince: lockstep spec only - the driver held the submitter at or after t, so that "at that very instant"
+// clauses about t cannot be demanded of the client.
+func (sb *submitter) heldSince(w *c13World, t time.Duration) bool {
+	return w.ls != nil && sb.heldAt >= t
+}
+
+// lockReturns releases a submitter the driver held at a lock or statement boundary. Like a logger that returns
+// late, the hold is the environment's delay, not the client's: whatever the client computes next it computes from
+// now, so the latest admissible next attempt moves.
+func (w *c13World) lockReturns(p *kernel.Parked) {
+	s := w.s
+	if sb := w.byName[kernel.RootOf(p.Party)]; sb != nil {
+		sb.heldAt = s.Now()
+	}
+	if sb := w.byName[kernel.RootOf(p.Party)]; sb != nil && (sb.phase == phRetry || sb.phase == phEither) {
+		if l := maxDur(s.Now(), w.J) + capBackoff + capJitter; l > sb.L {
+			sb.L = l
+		}
+	}
+	s.Release(p, kernel.Decision{Kind: "ok"})
+}
+
 func (w *c13World) Init(s *kernel.Sim) {
 	w.s = s
 	t := s.T
+	w.lockInit()
 	p := &w.prof
 	p.N = t.Range(1, 4)
 	p.OkW = 6 - t.Intn(5) // 6..2
@@ -242,12 +306,14 @@ func (w *c13World) Init(s *kernel.Sim) {
 	w.lc = lc
 	w.byName = map[string]*submitter{}
 	for i := 0; i < p.N; i++ {
-		sb := &submitter{ID: i, API: t.Intn(3), ctxKind: []int{0, 1, 2, 0, 1, 2, 0, 1, 2, 3, 4}[t.Intn(11)], deadlineT: -1, cancelT: -1, E: -1, phase: phIdle}
+		sb := &submitter{ID: i, API: t.Intn(3), ctxKind: []int{0, 1, 2, 0, 1, 2, 0, 1, 2, 3, 4}[t.Intn(11)], deadlineT: -1, cancelT: -1, heldAt: -1, E: -1, phase: phIdle}
 		sb.Party = fmt.Sprintf("sub%d", i)
 		sb.deadlineIn = c13Deadlines[t.Intn(len(c13Deadlines))] + offGrid
 		sb.sub = w.pki.newSubmission(t, i, sb.API == 1, false)
 		w.subs = append(w.subs, sb)
+		w.nameMu.Lock()
 		w.byName[sb.Party] = sb
+		w.nameMu.Unlock()
 	}
 	s.Logf("profile %+v key=%s", *p, w.logKey.Name)
 	for _, sb := range w.subs {
@@ -279,7 +345,15 @@ func (w *c13World) start(sb *submitter) {
 		sb.deadlineT = sb.startT + sb.deadlineIn
 	}
 	sb.caller = sb.ctx
-	s.Go(func() { w.run(sb) })
+	if sb.cancelT >= 0 {
+		sb.ended.Store(true)
+	}
+	s.Go(func() {
+		if w.ls != nil {
+			w.ls.RT.SetName(sb.Party)
+		}
+		w.run(sb)
+	})
 }
 
 // run is the submitter: one call of the real client.
@@ -666,6 +740,13 @@ func (l seamLogger) Printf(format string, _ ...interface{}) {
 		return
 	}
 	sb := w.logWho
+	if w.ls != nil {
+		// lockstep build: the calling goroutine is known by name - with submitters interleaved between any two
+		// statements "whoever failed last" is no longer the caller
+		w.nameMu.Lock()
+		sb = w.byName[w.ls.RT.Root()]
+		w.nameMu.Unlock()
+	}
 	if sb == nil {
 		return
 	}
@@ -713,8 +794,19 @@ func (w *c13World) active() int {
 func (w *c13World) Options(s *kernel.Sim) []kernel.Option {
 	var opts []kernel.Option
 	all := s.ParkedCalls()
+	if os.Getenv("VERIF_DEBUG_OPTS") != "" {
+		for _, p := range all {
+			s.Logf("    parked %s", p.Key)
+		}
+		if w.ls != nil {
+			s.Logf("    waiting %v", w.ls.RT.Waiting())
+		}
+	}
 	var parked, timeouts []*kernel.Parked // attempts waiting for the server / timed-out attempts waiting to be reported
 	inLog := map[string]bool{}
+	if w.ls != nil {
+		inLog = w.ls.RT.BlockedRoots() // waiting for a lock whose holder the driver may be holding: held, too
+	}
 	for _, p := range all {
 		switch p.Name {
 		case "log":
@@ -724,6 +816,11 @@ func (w *c13World) Options(s *kernel.Sim) []kernel.Option {
 			opts = append(opts, kernel.Option{Key: "log returns " + p.Key, Weight: w.prof.LogW, Apply: func() { w.logReturns(p) }})
 		case "rt.timedout":
 			timeouts = append(timeouts, p)
+		case kernel.SeamLock, kernel.SeamRLock, kernel.SeamHeld, kernel.SeamYield:
+			// held by the driver at a lock or statement boundary: like a submitter held in its logger
+			inLog[kernel.RootOf(p.Party)] = true
+			p := p
+			opts = append(opts, kernel.Option{Key: "rel " + p.Key, Weight: w.ls.Weight, Apply: func() { w.lockReturns(p) }})
 		default:
 			parked = append(parked, p)
 		}
@@ -745,6 +842,9 @@ func (w *c13World) Options(s *kernel.Sim) []kernel.Option {
 	for _, p := range timeouts {
 		p := p
 		opts = append(opts, kernel.Option{Key: "report " + p.Key, Weight: 8, Apply: func() { w.deliverTimeout(p) }})
+	}
+	if w.ls != nil && !s.FaultsOn() {
+		w.ls.Quiet() // settle phase: nobody is held at locks or statement boundaries any more
 	}
 	if !s.FaultsOn() {
 		if len(all) == 0 && w.active() > 0 {
@@ -776,6 +876,7 @@ func (w *c13World) Options(s *kernel.Sim) []kernel.Option {
 		if sb.started && !sb.harvested && (sb.ctxKind == 1 || sb.ctxKind == 2) && sb.cancelT < 0 && w.prof.CancelW > 0 && !inLog[sb.Party] {
 			sb := sb
 			opts = append(opts, kernel.Option{Key: "cancel " + sb.Party, Weight: w.prof.CancelW, Apply: func() {
+				sb.ended.Store(true)
 				sb.cancelT = s.Now()
 				s.Fault("cancel")
 				sb.cancel()
@@ -855,10 +956,16 @@ func (w *c13World) attemptEnded(sb *submitter, f fin) {
 func (w *c13World) AfterStep(s *kernel.Sim) {
 	now := s.Now()
 	inLog := map[string]bool{} // submitters held in their logger: the environment, not the client, delays them
+	if w.ls != nil {
+		inLog = w.ls.RT.BlockedRoots()
+	}
 	for _, p := range s.ParkedCalls() {
-		if p.Name == "log" {
-			inLog[p.Party] = true
+		if p.Name == "log" || kernel.IsLockSeam(p.Name) {
+			inLog[kernel.RootOf(p.Party)] = true
 		}
+	}
+	if w.ls != nil && w.ls.Check() {
+		return
 	}
 	for _, sb := range w.subs {
 		if !sb.started || sb.harvested {
@@ -919,6 +1026,18 @@ func (w *c13World) AfterStep(s *kernel.Sim) {
 		}
 		end, ended := sb.ctxEnd(now)
 
+		if w.ls != nil && inLog[sb.Party] {
+			sb.heldAt = now
+			// held, or waiting for a lock that somebody held has: whatever it computes next it computes from now on
+			if sb.phase == phRetry || sb.phase == phEither {
+				if l := maxDur(now, w.J) + capBackoff + capJitter; l > sb.L {
+					sb.L = l
+				}
+			}
+		}
+		if !done && w.ls != nil && inLog[sb.Party] {
+			continue // held by the driver at a lock or statement boundary (or waiting for a lock somebody held there has): not its delay
+		}
 		if !done {
 			switch {
 			case sb.phase == phRetOK || sb.phase == phRetErr:
@@ -949,7 +1068,7 @@ func (w *c13World) AfterStep(s *kernel.Sim) {
 				s.Violate("c13.false-success", sb.lastKind, "%s: success returned at %v, last server outcome was %s at %v (phase %s)", sb.Party, retT, sb.lastKind, sb.T, sb.phase)
 				return
 			}
-			if retT != sb.T {
+			if retT != sb.T && !sb.heldSince(w, sb.T) {
 				s.Violate("c13.late-return", "success", "%s: parsable 200 delivered at %v, returned at %v", sb.Party, sb.T, retT)
 				return
 			}
@@ -979,7 +1098,7 @@ func (w *c13World) AfterStep(s *kernel.Sim) {
 				s.Violate("c13.bad-error", sb.lastKind, "%s: %s must come back as RspError with status and body; got %s (status %d body %q)", sb.Party, sb.lastKind, errDesc(err), re.StatusCode, re.Body)
 				return
 			}
-			if retT != sb.T {
+			if retT != sb.T && !sb.heldSince(w, sb.T) {
 				s.Violate("c13.late-return", sb.lastKind, "%s: %s delivered at %v, returned at %v", sb.Party, sb.lastKind, sb.T, retT)
 				return
 			}
@@ -993,7 +1112,7 @@ func (w *c13World) AfterStep(s *kernel.Sim) {
 				return
 			}
 			s.Probe("ret.ctx")
-			if retT != end {
+			if retT != end && !sb.heldSince(w, end) {
 				s.Violate("c13.ctx-not-prompt", fmt.Sprintf("ctxkind=%d phase=%s", sb.ctxKind, sb.phase), "%s: context ended at %v, call returned at %v", sb.Party, end, retT)
 				return
 			}
